@@ -6,7 +6,7 @@ defined_names = names stored anywhere;  function_defs = all def nodes
 safe = SAFE_CALLABLES - (defined_names | def names | class names | imported names)     -- a module's own `format` is not the builtin
 while changes:
     for node in function_defs:                      -- the definitions not yet judged safe
-        if node.name in defined_names: continue
+        if node.name in defined_names or node.decorator_list: continue
         if no statement that counts has a side effect under `safe`:
             safe_nodes.add(node)
             if every definition of node.name is in safe_nodes: safe.add(node.name)
@@ -23,6 +23,7 @@ structure Def where
   name : String
   intrinsic : Bool
   calls : List String
+  decorated : Bool := false      -- what is called is whatever the decorator returns: never judged safe
   deriving Repr
 
 structure St where
@@ -30,7 +31,7 @@ structure St where
   nodes : List Nat           -- safe_callable_nodes, as indices into the list of definitions
 
 def defSafe (names : List String) (d : Def) : Bool :=
-  !d.intrinsic && d.calls.all (fun c => decide (c ∈ names))
+  !d.decorated && !d.intrinsic && d.calls.all (fun c => decide (c ∈ names))
 
 /-- every definition of the name `n` is among the safe nodes -/
 def allDefsSafe (all : List Def) (nodes : List Nat) (n : String) : Bool :=
@@ -167,7 +168,7 @@ theorem safeNames_consistent (base : List String) (all : List Def) (stores other
     rw [hi] at hd'
     cases hd'
     simp only [defSafe, Bool.and_eq_true, Bool.not_eq_true', List.all_eq_true, decide_eq_true_eq] at hs
-    exact ⟨hs.1, hs.2⟩
+    exact ⟨hs.1.2, hs.2⟩
 
 /-- a builtin name the iteration starts from is not defined by the module -/
 theorem startNames_not_defined (base : List String) (all : List Def) (stores otherBound : List String) (n : String)
